@@ -118,6 +118,10 @@ def tie_sentend(ctx: Ctx) -> None:
     maxlen = ctx.scale(4, 5)
     words = ["".join(t) for n in range(1, maxlen + 1) for t in itertools.product(SE_ALPHABET, repeat=n)]
     words += SENT_WORDS + ["café.", "schön!", "день.", "naïve?)", "A.", "ab.c", "x1ab.", "_ab.", "ab.”", "ab”.", "ab.'", "ab…", "Ab!?", "été.", "ΑΒγ.", "ΑΒΓ."]
+    # sentence tails beyond the exhaustive length: every suffix of up to four punctuation / closer characters (and a
+    # trailing space) after a few stems — where "one closer at most" and "which closers" are decided
+    tails = ["".join(t) for n in range(0, 5) for t in itertools.product([".", "?", "!", "'", "\"", "’", "”", ")", "‘", " "], repeat=n)]
+    words += [stem + t for stem in ("ab", "Ab", "aB", "éa", "яб", "a") for t in tails]
     outs = run_driver([f"sentEnd\t{enc(w)}\t{char_flags(w)}" for w in words], workers=16)
     bad = 0
     for w, o in zip(words, outs):
@@ -129,6 +133,13 @@ def tie_sentend(ctx: Ctx) -> None:
     ctx.obligation(f"tie sentEnd: scanner model of SENTENCE_END_RE (classes from unicodedata) = heuristic_end_of_sentence on all "
                    f"{len(words)} words over a {len(SE_ALPHABET)}-symbol alphabet (ASCII, Latin-1, Cyrillic, CJK, titlecase, digits, closers) ≤{maxlen}",
                    "correspondence", bad == 0, f"{bad} disagreement(s)")
+    # the rule itself, pinned: which tails end a sentence (one closer at most, on either side of the mark)
+    for w, want in (("yet.\")", False), ("started\").", False), ("unfinished.’”", False), ("done.)", True), ("done).", True), ("done.”", True),
+                    ("here.’", True), ("now!’", True), ("dogs’.", True), ("ab..", False), ("ab.", True), ("ab. ", True)):
+        ctx.count(["sentEnd-pinned", w])
+        if bool(ss.heuristic_end_of_sentence(w)) != want:
+            ctx.fail("SENTENCE_END: a word is (not) taken for a sentence end against the rule (letters, one mark, at most one closer)",
+                     {"word": w}, {"expected": want})
 
 
 ATOM_WORDS = ["`code span here`", "[a link](http://x.y/z)", "[multi word link text](u)", "{% tag a=1 %}", "<b>", "</b>",
